@@ -12,7 +12,6 @@ RULE = ('lap scripts over pairs of multisets of NON-EMPTY intervals (empty, disj
         'distinct by case text')
 UNIQUE_NOTE = 'cov_card / ui_card + card_unique: a cardinality is unique'
 EXHAUSTIVE = {}
-CROSSCHECK = True      # thorough tier: a sample is re-evaluated inside Coq against the extracted runner
 
 
 def overlap_inside(ivs):
